@@ -125,11 +125,10 @@ func buildOps(thorough bool) []opDef {
 	ops = append(ops, opDef{name: seqName(s) + "+DeletePreviousMax(" + pfxP + ")", seq: []seqPut{s}, delMax: []string{pfxP}, mixedKind: true})
 	s2 := seqPut{pfxPP, []uint64{2}}
 	ops = append(ops, opDef{name: seqName(s2) + "+PlainPut(" + key20(pfxPP, 9) + ")", seq: []seqPut{s2}, plain: []string{key20(pfxPP, 9)}, mixedKind: true})
-	if thorough {
-		for _, d := range [][]uint64{{two63}, {maxU64}, {1, maxU64}} {
-			s := seqPut{pfxP, d}
-			ops = append(ops, opDef{name: seqName(s), seq: []seqPut{s}, boundary: true})
-		}
+	// deltas at the edge of the number range (both tiers: a bound that is off by a sign bit only shows here)
+	for _, d := range [][]uint64{{two63}, {maxU64}, {1, maxU64}} {
+		s := seqPut{pfxP, d}
+		ops = append(ops, opDef{name: seqName(s), seq: []seqPut{s}, boundary: true})
 	}
 	return ops
 }
@@ -566,7 +565,7 @@ func main() {
 		"requests the property does not define (fewer deltas than the highest key has suffixes, non-numeric suffixes, zero first delta, no partition key) are validation cases of C13 and are not issued",
 		"a replica is a second DB that applies the same requests with the same offsets and timestamps"}
 	run.DistinctN(res.States)
-	os.Exit(run.Finish("BFS over all request histories up to max_depth from the alphabet {sequence put x 3 prefixes x 5 delta lists, 8 requests with two sequence puts, plain puts of sequence-looking keys, delete of the highest/lowest key, plain put on the highest key, mixed requests; thorough adds deltas 2^63, 2^64-1}; every returned key is compared with a math/big reference, must be new and greater (key order and string order) than every existing key of the prefix; DB content and a replaying replica are compared after every request; a state is distinct when the set of stored user keys differs"))
+	os.Exit(run.Finish("BFS over all request histories up to max_depth from the alphabet {sequence put x 3 prefixes x 5 delta lists, 8 requests with two sequence puts, plain puts of sequence-looking keys, delete of the highest/lowest key, plain put on the highest key, mixed requests, deltas 2^63 and 2^64-1}; every returned key is compared with a math/big reference, must be new and greater (key order and string order) than every existing key of the prefix; DB content and a replaying replica are compared after every request; a state is distinct when the set of stored user keys differs"))
 }
 
 func doReplay(path string) int {
